@@ -7,6 +7,13 @@ From Algo.C02 Require Import Model Arith ListLemmas Spec ProofsProbe ProofsPrime
 Import ListNotations.
 Local Open Scope nat_scope.
 
+(** options of the double-hashing theorems: maxLF <= 1/2, maxLF*31 >= 1, 2*minLF <= maxLF *)
+Definition valid_dbl (minlf maxlf : lf) : Prop :=
+  0 < lf_den maxlf /\ 0 < lf_den minlf /\
+  2 * lf_num maxlf <= lf_den maxlf /\
+  lf_den maxlf <= lf_num maxlf * 31 /\
+  2 * lf_num minlf * lf_den maxlf <= lf_num maxlf * lf_den minlf.
+
 Section Double.
   Variables K V : Type.
   Variable eqb : K -> K -> bool.
@@ -116,7 +123,8 @@ Section Double.
       exists t', dh_put_core K V eqb hash t k v = Ok t' /\ dh_inv0 t' /\
                  (forall k', dh_fun t' k' = fupd (dh_fun t) k v k') /\
                  dh_m K V t' = dh_m K V t /\
-                 dh_n K V t' + dh_t K V t' <= dh_n K V t + dh_t K V t + 1.
+                 dh_n K V t' + dh_t K V t' <= dh_n K V t + dh_t K V t + 1 /\
+                 dh_n K V t' <= S (dh_n K V t).
   Proof.
     intros t k v I Hroom. set (m := dh_m K V t) in *. set (es := dh_e K V t) in *.
     pose proof (d_sinv _ I) as SI. fold m es in SI.
@@ -142,17 +150,17 @@ Section Double.
       destruct (e_d K V e) eqn:Ed.
       + assert (Ef : sfun es k = None) by (rewrite <- Ek; eapply tomb_absent_d; eauto).
         rewrite Ef in Hlen.
-        eexists; split; [reflexivity|]. split; [|split; [exact F'|split; [reflexivity|simpl; lia]]].
+        eexists; split; [reflexivity|]. split; [|split; [exact F'|split; [reflexivity|split; simpl; lia]]].
         constructor; simpl; auto; try apply I; lia.
       + assert (Ef : sfun es k = Some (e_v K V e)).
         { apply (proj2 (sfun_slots K V eqb eqb_spec es k (e_v K V e) (s_dist _ _ _ _ _ _ SI))). exists (didx m k i), e. auto. }
         rewrite Ef in Hlen.
-        eexists; split; [reflexivity|]. split; [|split; [exact F'|split; [reflexivity|simpl; lia]]].
+        eexists; split; [reflexivity|]. split; [|split; [exact F'|split; [reflexivity|split; simpl; lia]]].
         constructor; simpl; auto; try apply I; lia.
     - destruct Ho as [Hemp Habs]. fold es'.
       assert (Ef : sfun es k = None) by (eapply key_absent_d; eauto).
       rewrite Ef in Hlen.
-      eexists; split; [reflexivity|]. split; [|split; [exact F'|split; [reflexivity|simpl; lia]]].
+      eexists; split; [reflexivity|]. split; [|split; [exact F'|split; [reflexivity|split; simpl; lia]]].
       constructor; simpl; auto; try apply I; lia.
   Qed.
 
@@ -167,7 +175,7 @@ Section Double.
     unfold Spec.s_get in *; simpl. destruct (eqb x k); auto.
   Qed.
 
-  Hypothesis Hvalid : valid_soft minlf maxlf.
+  Hypothesis Hvalid : valid_dbl minlf maxlf.
 
   (** [x * den < num * m] leaves room for one more entry among the m probes *)
   Lemma load_room_d : forall x m, 2 <= m -> x * lf_den maxlf < lf_num maxlf * m -> x + 1 < dH m.
@@ -199,7 +207,7 @@ Section Double.
       assert (Hlt : (dh_n K V acc + dh_t K V acc) * lf_den maxlf < lf_num maxlf * dh_m K V acc).
       { rewrite Hn, T0. nia. }
       rewrite dh_put_noresize by (apply lf_ge_false; exact Hlt).
-      destruct (dh_put_core_ok acc k v I) as (t1 & H1 & I1 & F1 & M1 & N1).
+      destruct (dh_put_core_ok acc k v I) as (t1 & H1 & I1 & F1 & M1 & N1 & _).
       { rewrite (d_nonnil _ I). apply load_room_d; [pose proof (d_min _ I); lia|exact Hlt]. }
       rewrite H1; simpl.
       assert (Hk : ~ In k (keys pre)).
@@ -243,7 +251,7 @@ Section Double.
   Lemma dh_resize_ok : forall d shuf t m',
       dh_inv0 t -> perm_oracle shuf -> 31 <= m' ->
       (exists p, m' <= p < m' + (m' + 2) /\ is_prime p = true) ->
-      dh_n K V t * lf_den maxlf < lf_num maxlf * m' + lf_den maxlf ->
+      (forall p, m' <= p -> is_prime p = true -> dh_n K V t * lf_den maxlf < lf_num maxlf * p + lf_den maxlf) ->
       exists t', dh_resize_with K V (dh_put K V eqb hash maxlf d shuf) shuf t m' = Ok t' /\ dh_inv0 t' /\
                  (forall k, dh_fun t' k = dh_fun t k) /\ m' <= dh_m K V t' /\
                  dh_n K V t' = dh_n K V t /\ dh_t K V t' = 0.
@@ -258,8 +266,7 @@ Section Double.
     assert (A1 : NoDup (keys ([] ++ dh_all K V shuf t))) by (simpl; apply R).
     assert (A2 : forall k, dh_fun nt k = s_get [] k) by (intros k; rewrite Fn; reflexivity).
     assert (A3 : length ([] ++ dh_all K V shuf t) * lf_den maxlf < lf_num maxlf * dh_m K V nt + lf_den maxlf).
-    { simpl. rewrite Mn, <- Hlen. apply Nat.lt_le_trans with (lf_num maxlf * m' + lf_den maxlf); [exact L|].
-      apply Nat.add_le_mono_r. apply Nat.mul_le_mono_l. lia. }
+    { simpl. rewrite Mn, <- Hlen. apply L; [lia|exact Pp]. }
     destruct (dh_reinsert_ok d shuf (dh_all K V shuf t) [] nt A1 In Tn A2 A3) as (t' & H' & I' & T' & F' & M').
     rewrite H'; cbn [bind]. simpl in F'.
       assert (Ft : forall k, dh_fun t' k = dh_fun t k).
@@ -276,13 +283,13 @@ Section Double.
     (dh_n K V t + dh_t K V t) * lf_den maxlf < lf_num maxlf * dh_m K V t + lf_den maxlf.
   Definition dh_inv (t : dh) : Prop := dh_inv0 t /\ dh_load t.
 
-  Hypothesis Hgap : prime_gap.
-
   Lemma dh_put_ok : forall d shuf t k v, 1 <= d -> dh_inv t -> perm_oracle shuf ->
+      (lf_ge (dh_n K V t) (dh_m K V t) maxlf = true ->
+       exists p, 2 * dh_m K V t <= p < 2 * dh_m K V t + (2 * dh_m K V t + 2) /\ is_prime p = true) ->
       exists t', dh_put K V eqb hash maxlf d shuf t k v = Ok t' /\ dh_inv t' /\
-                 forall k', dh_fun t' k' = fupd (dh_fun t) k v k'.
+                 (forall k', dh_fun t' k' = fupd (dh_fun t) k v k') /\ dh_n K V t' <= S (dh_n K V t).
   Proof.
-    intros d shuf t k v Hd [I Ld] Pm. unfold dh_load in Ld.
+    intros d shuf t k v Hd [I Ld] Pm Hg. unfold dh_load in Ld.
     pose proof Hvalid as (D1 & D2 & D3 & D4 & D5). pose proof (d_min _ I) as M31.
     destruct d as [|d]; [lia|]. simpl.
     assert (Dm : lf_den maxlf <= lf_num maxlf * dh_m K V t).
@@ -291,34 +298,36 @@ Section Double.
     - destruct (lf_ge (dh_n K V t) (dh_m K V t) maxlf) eqn:G2.
       + (* the live entries alone reach the limit: grow *)
         destruct (dh_resize_ok d shuf t (2 * dh_m K V t) I Pm ltac:(lia)) as (t1 & H1 & I1 & F1 & M1 & N1 & T1).
-        { apply Hgap. lia. }
-        { nia. }
+        { apply Hg. reflexivity. }
+        { intros p Hp _. apply Nat.lt_le_trans with (lf_num maxlf * (2 * dh_m K V t) + lf_den maxlf); [nia|].
+          apply Nat.add_le_mono_r. apply Nat.mul_le_mono_l; lia. }
         replace (dh_m K V t + (dh_m K V t + 0)) with (2 * dh_m K V t) by lia.
         rewrite H1; cbn [bind].
         assert (L1 : (dh_n K V t1 + dh_t K V t1) * lf_den maxlf < lf_num maxlf * dh_m K V t1).
         { rewrite N1, T1. apply Nat.lt_le_trans with (lf_num maxlf * (2 * dh_m K V t)); [|apply Nat.mul_le_mono_l; lia]. nia. }
-        destruct (dh_put_core_ok t1 k v I1) as (t2 & H2 & I2 & F2 & M2 & N2).
+        destruct (dh_put_core_ok t1 k v I1) as (t2 & H2 & I2 & F2 & M2 & N2 & B2).
         { rewrite (d_nonnil _ I1). apply load_room_d; [pose proof (d_min _ I1); lia|exact L1]. }
         exists t2. split; [exact H2|]. split.
         * split; auto. unfold dh_load. rewrite M2. nia.
-        * intros k'. rewrite F2. unfold Spec.fupd. now rewrite F1.
+        * split; [intros k'; rewrite F2; unfold Spec.fupd; now rewrite F1|lia].
       + (* soft-deleted entries fill the table: rehash in place *)
         apply lf_ge_false in G2.
         destruct (dh_resize_ok d shuf t (dh_m K V t) I Pm M31) as (t1 & H1 & I1 & F1 & M1 & N1 & T1).
         { exists (dh_m K V t). split; [lia|apply (d_prime _ I)]. }
-        { nia. }
+        { intros p Hp _. apply Nat.lt_le_trans with (lf_num maxlf * dh_m K V t + lf_den maxlf); [nia|].
+          apply Nat.add_le_mono_r. apply Nat.mul_le_mono_l; lia. }
         rewrite H1; cbn [bind].
         assert (L1 : (dh_n K V t1 + dh_t K V t1) * lf_den maxlf < lf_num maxlf * dh_m K V t1).
         { rewrite N1, T1. apply Nat.lt_le_trans with (lf_num maxlf * dh_m K V t); [|apply Nat.mul_le_mono_l; lia]. nia. }
-        destruct (dh_put_core_ok t1 k v I1) as (t2 & H2 & I2 & F2 & M2 & N2).
+        destruct (dh_put_core_ok t1 k v I1) as (t2 & H2 & I2 & F2 & M2 & N2 & B2).
         { rewrite (d_nonnil _ I1). apply load_room_d; [pose proof (d_min _ I1); lia|exact L1]. }
         exists t2. split; [exact H2|]. split.
         * split; auto. unfold dh_load. rewrite M2. nia.
-        * intros k'. rewrite F2. unfold Spec.fupd. now rewrite F1.
+        * split; [intros k'; rewrite F2; unfold Spec.fupd; now rewrite F1|lia].
     - apply lf_ge_false in G. cbn [bind].
-      destruct (dh_put_core_ok t k v I) as (t2 & H2 & I2 & F2 & M2 & N2).
+      destruct (dh_put_core_ok t k v I) as (t2 & H2 & I2 & F2 & M2 & N2 & B2).
       { rewrite (d_nonnil _ I). apply load_room_d; [lia|exact G]. }
-      exists t2. split; [exact H2|]. split; auto.
+      exists t2. split; [exact H2|]. split; [|split; auto].
       split; auto. unfold dh_load. rewrite M2. nia.
   Qed.
 
@@ -329,7 +338,7 @@ Section Double.
 
   Lemma dh_delete_ok : forall d shuf t k, 1 <= d -> dh_inv t -> perm_oracle shuf ->
       exists t', dh_delete K V eqb hash minlf maxlf d shuf t k = Ok (t', dh_fun t k) /\ dh_inv t' /\
-                 forall k', dh_fun t' k' = frem (dh_fun t) k k'.
+                 (forall k', dh_fun t' k' = frem (dh_fun t) k k') /\ dh_n K V t' <= dh_n K V t.
   Proof.
     intros d shuf t k Hd Hinv Pm. pose proof Hinv as [I Ld]. unfold dh_load in Ld.
     destruct Hvalid as (D1 & D2 & D3 & D4 & D5). pose proof (d_min _ I) as M31.
@@ -342,7 +351,7 @@ Section Double.
     destruct o as [e|].
     - destruct Ho as [Ek Hat]. destruct (e_d K V e) eqn:Ed.
       + assert (Ef : dh_fun t k = None) by (unfold dh_fun; fold es; rewrite <- Ek; eapply tomb_absent_d; eauto).
-        exists t. rewrite Ef. split; [reflexivity|]. split; [exact Hinv|]. intros k'. symmetry. now apply frem_absent_d.
+        exists t. rewrite Ef. split; [reflexivity|]. split; [exact Hinv|]. split; [intros k'; symmetry; now apply frem_absent_d|lia].
       + destruct (del_slot K V eqb eqb_spec m (didx m) (dH m) (d_lt t I) (dH_le _) es k i e SI Hat Ek Ed)
           as (L' & V' & D' & F' & Fk & N' & T').
         set (es' := upd es (didx m k i) (Some {| e_k := e_k K V e; e_v := e_v K V e; e_d := true |})) in *.
@@ -370,38 +379,36 @@ Section Double.
         * unfold dh_resize.
           destruct (Nat.ltb_spec (m / 2) 31) as [Hsmall|Hbig].
           -- unfold dh_resize_with, dhMinM. destruct (Nat.ltb_spec (m / 2) 31); [|lia]. cbn [bind].
-             exists t1. split; [reflexivity|]. split; [split; auto|exact F1].
+             exists t1. split; [reflexivity|]. split; [split; auto|split; [exact F1|simpl; lia]].
           -- apply lf_le_true in G.
              assert (Hm2 : m <= 2 * (m / 2) + 1).
              { pose proof (Nat.div_mod m 2 ltac:(lia)). pose proof (Nat.mod_upper_bound m 2 ltac:(lia)). lia. }
-             assert (Hpre3 : 3 * (pred (dh_n K V t) * lf_den maxlf) <= lf_num maxlf * m).
+             assert (Hpre2 : 2 * (pred (dh_n K V t) * lf_den maxlf) <= lf_num maxlf * m).
              { apply Nat.mul_le_mono_pos_r with (p := lf_den minlf); auto.
-               apply Nat.le_trans with (3 * lf_num minlf * lf_den maxlf * m).
-               - replace (3 * (pred (dh_n K V t) * lf_den maxlf) * lf_den minlf)
-                   with (3 * lf_den maxlf * (pred (dh_n K V t) * lf_den minlf)) by lia.
-                 replace (3 * lf_num minlf * lf_den maxlf * m) with (3 * lf_den maxlf * (lf_num minlf * m)) by lia.
+               apply Nat.le_trans with (2 * lf_num minlf * lf_den maxlf * m).
+               - replace (2 * (pred (dh_n K V t) * lf_den maxlf) * lf_den minlf)
+                   with (2 * lf_den maxlf * (pred (dh_n K V t) * lf_den minlf)) by lia.
+                 replace (2 * lf_num minlf * lf_den maxlf * m) with (2 * lf_den maxlf * (lf_num minlf * m)) by lia.
                  apply Nat.mul_le_mono_l. exact G.
                - replace (lf_num maxlf * m * lf_den minlf) with (lf_num maxlf * lf_den minlf * m) by lia.
                  apply Nat.mul_le_mono_r. exact D5. }
-             assert (Hnum : 0 < lf_num maxlf) by nia.
-             destruct (dh_resize_ok d shuf t1 (m / 2) I1 Pm Hbig) as (t2 & H2 & I2 & F2 & M2 & N2 & T2).
-             { apply Hgap. exact Hbig. }
-             { change (dh_n K V t1) with (pred (dh_n K V t)). set (X := pred (dh_n K V t) * lf_den maxlf) in *.
+             assert (Lp : forall p, m / 2 <= p -> is_prime p = true ->
+                                    pred (dh_n K V t) * lf_den maxlf < lf_num maxlf * p + lf_den maxlf).
+             { intros p0 Hp0 _. set (X := pred (dh_n K V t) * lf_den maxlf) in *.
                assert (A : lf_num maxlf * m <= lf_num maxlf * (2 * (m / 2) + 1)) by (apply Nat.mul_le_mono_l; lia).
-               assert (B : lf_num maxlf * 31 <= lf_num maxlf * (m / 2)) by (apply Nat.mul_le_mono_l; lia).
+               assert (Bq : lf_num maxlf * (m / 2) <= lf_num maxlf * p0) by (apply Nat.mul_le_mono_l; lia).
                lia. }
+             destruct (dh_resize_ok d shuf t1 (m / 2) I1 Pm Hbig) as (t2 & H2 & I2 & F2 & M2 & N2 & T2).
+             { exists m. split; [|apply (d_prime _ I)]. assert (m / 2 <= m) by (apply Nat.div_le_upper_bound; lia). lia. }
+             { exact Lp. }
              rewrite H2; cbn [bind]. exists t2. split; [reflexivity|]. split.
              ++ split; auto. unfold dh_load. rewrite N2, T2. change (dh_n K V t1) with (pred (dh_n K V t)). rewrite Nat.add_0_r.
-                apply Nat.lt_le_trans with (lf_num maxlf * (m / 2)); [|apply Nat.le_trans with (lf_num maxlf * dh_m K V t2); [apply Nat.mul_le_mono_l; lia|lia]].
-                set (X := pred (dh_n K V t) * lf_den maxlf) in *.
-                assert (A : lf_num maxlf * m <= lf_num maxlf * (2 * (m / 2) + 1)) by (apply Nat.mul_le_mono_l; lia).
-                assert (B : lf_num maxlf * 31 <= lf_num maxlf * (m / 2)) by (apply Nat.mul_le_mono_l; lia).
-                lia.
-             ++ intros k'. now rewrite F2, F1.
-        * exists t1. split; [reflexivity|]. split; [split; auto|exact F1].
+                apply Lp; [exact M2|apply (d_prime _ I2)].
+             ++ split; [intros k'; now rewrite F2, F1|]. rewrite N2. simpl. lia.
+        * exists t1. split; [reflexivity|]. split; [split; auto|split; [exact F1|simpl; lia]].
     - destruct Ho as [Hemp Habs].
       assert (Ef : dh_fun t k = None) by (unfold dh_fun; fold es; eapply key_absent_d; eauto).
-      exists t. rewrite Ef. split; [reflexivity|]. split; [exact Hinv|]. intros k'. symmetry. now apply frem_absent_d.
+      exists t. rewrite Ef. split; [reflexivity|]. split; [exact Hinv|]. split; [intros k'; symmetry; now apply frem_absent_d|lia].
   Qed.
 
   Lemma dh_delete_all_ok : forall t, dh_inv t ->
@@ -418,7 +425,7 @@ Section Double.
   Qed.
 End Double.
 
-(** * the refinement theorem for quadratic probing *)
+(** * the refinement theorems for double hashing *)
 Section DoubleTop.
   Variables K V : Type.
   Variable eqb : K -> K -> bool.
@@ -426,19 +433,21 @@ Section DoubleTop.
   Variable hash : K -> N.
   Variables minlf maxlf : lf.
   Hypothesis eqb_spec : forall a b, eqb a b = true <-> a = b.
-  Hypothesis Hvalid : valid_soft minlf maxlf.
-  Hypothesis Hgap : prime_gap.
+  Hypothesis Hvalid : valid_dbl minlf maxlf.
+  Variables B L : nat.
+  Hypothesis HgapB : prime_gap_upto B.
+  Hypothesis HL : 2 * lf_den maxlf * L <= lf_num maxlf * B.
 
-  Definition du_Inv (t : table K V) : Prop :=
-    match t with TDH _ _ s => dh_inv K V hash maxlf s | _ => False end.
+  Definition du_InvI (i : nat) (t : table K V) : Prop :=
+    match t with TDH _ _ s => dh_inv K V hash maxlf s /\ dh_n K V s <= i | _ => False end.
   Definition du_Fun (t : table K V) (k : K) : option V :=
     match t with TDH _ _ s => dh_fun K V eqb s k | _ => None end.
 
-  Theorem double_refines : forall cap orc ops,
-      valid_cap_prime cap -> (forall i j, perm_oracle (orc i j)) ->
+  Theorem double_refines_gen : forall cap orc ops,
+      valid_cap_prime cap -> (forall i j, perm_oracle (orc i j)) -> length ops <= L ->
       outs_match K V (run K V eqb eqv hash minlf maxlf orc Double cap ops) (run_spec K V eqb eqv ops).
   Proof.
-    intros cap orc ops Hcap PO.
+    intros cap orc ops Hcap PO HlenL.
     assert (Hc : 31 <= (if cap =? 0 then dhMinM else cap) /\ is_prime (if cap =? 0 then dhMinM else cap) = true).
     { destruct Hcap as [Z|(H31 & Hp)].
       - subst. simpl. split; [unfold dhMinM; lia|reflexivity].
@@ -446,23 +455,41 @@ Section DoubleTop.
     destruct Hc as (H31 & Hp).
     destruct (dh_new_ok K V eqb hash eqb_spec _ Hp H31) as (t0 & H0 & I0 & F0 & M0 & N0 & T0).
     pose proof Hvalid as (D1 & D2 & D3 & D4 & D5).
-    apply (run_refines K V eqb eqv eqb_spec hash minlf maxlf du_Inv du_Fun) with (t0 := TDH K V t0).
-    - intros [| | |s] shuf I P; try contradiction. apply dh_represents with (hash := hash); auto. apply I.
-    - intros [| | |s] I; try contradiction. simpl. apply dh_size_ok with (hash := hash); apply I.
-    - intros shuf [| | |s] k v I P; try contradiction. unfold put.
-      destruct (dh_put_ok K V eqb eqv hash minlf maxlf eqb_spec Hvalid Hgap depth shuf s k v) as (t' & H' & I' & F'); auto.
+    assert (Hnum : 0 < lf_num maxlf) by nia.
+    apply run_refines_bounded with (L := L) (Inv := du_InvI) (Fun := du_Fun) (t0 := TDH K V t0); auto.
+    - intros i [| | |s] I; try contradiction. destruct I as [I Hn]. split; auto.
+    - intros i [| | |s] shuf I P; try contradiction. apply dh_represents with (hash := hash); auto. apply I.
+    - intros i [| | |s] I; try contradiction. simpl. apply dh_size_ok with (hash := hash); apply I.
+    - intros i shuf [| | |s] k v Hi I P; try contradiction. destruct I as [I Hn]. unfold put.
+      destruct (dh_put_ok K V eqb eqv hash minlf maxlf eqb_spec Hvalid depth shuf s k v) as (t' & H' & I' & F' & N'); auto.
       { unfold depth; lia. }
-      exists (TDH K V t'). rewrite H'. simpl. split; auto.
-    - intros [| | |s] k I; try contradiction. simpl. apply dh_get_ok; auto. apply I.
-    - intros shuf [| | |s] k I P; try contradiction. unfold delete.
-      destruct (dh_delete_ok K V eqb eqv hash minlf maxlf eqb_spec Hvalid Hgap depth shuf s k) as (t' & H' & I' & F'); auto.
+      { intros G. apply lf_ge_true in G. apply HgapB. pose proof (d_min _ _ _ _ (proj1 I)) as M31. split; [lia|].
+        apply Nat.mul_le_mono_pos_l with (p := lf_num maxlf); auto.
+        apply Nat.le_trans with (2 * lf_den maxlf * L); [|exact HL].
+        apply Nat.le_trans with (2 * (dh_n K V s * lf_den maxlf)); [lia|].
+        replace (2 * lf_den maxlf * L) with (2 * (L * lf_den maxlf)) by lia.
+        apply Nat.mul_le_mono_l. apply Nat.mul_le_mono_r. lia. }
+      exists (TDH K V t'). rewrite H'. simpl. split; auto. split; auto. split; auto. lia.
+    - intros i [| | |s] k I; try contradiction. simpl. apply dh_get_ok; auto. apply I.
+    - intros i shuf [| | |s] k I P; try contradiction. destruct I as [I Hn]. unfold delete.
+      destruct (dh_delete_ok K V eqb eqv hash minlf maxlf eqb_spec Hvalid depth shuf s k) as (t' & H' & I' & F' & N'); auto.
       { unfold depth; lia. }
-      exists (TDH K V t'). rewrite H'. simpl. split; auto.
-    - intros [| | |s] I; try contradiction. simpl. apply dh_delete_all_ok with (minlf := minlf); auto.
-    - intros s1 s2 [| | |a] [| | |b] I1 I2; try contradiction. reflexivity.
+      exists (TDH K V t'). rewrite H'. simpl. split; auto. split; auto. split; auto. lia.
+    - intros i [| | |s] I; try contradiction. destruct I as [I Hn]. simpl.
+      destruct (dh_delete_all_ok K V eqb hash minlf maxlf eqb_spec Hvalid s I) as [A Bq]. split; auto. split; auto. simpl. lia.
+    - intros i s1 s2 [| | |a] [| | |b] I1 I2; try contradiction. reflexivity.
     - simpl. rewrite H0. reflexivity.
-    - simpl. split; auto. unfold dh_load. rewrite N0, T0. simpl. lia.
-    - intros k. simpl. apply F0.
-    - exact PO.
+    - simpl. split; [|lia]. split; auto. unfold dh_load. rewrite N0, T0. simpl. lia.
   Qed.
 End DoubleTop.
+
+Theorem double_refines : forall (K V : Type) (eqb : K -> K -> bool) (eqv : V -> V -> bool) (hash : K -> N) (minlf maxlf : lf),
+    (forall a b, eqb a b = true <-> a = b) -> valid_dbl minlf maxlf -> prime_gap ->
+    forall cap orc ops, valid_cap_prime cap -> (forall i j, perm_oracle (orc i j)) ->
+    outs_match K V (run K V eqb eqv hash minlf maxlf orc Double cap ops) (run_spec K V eqb eqv ops).
+Proof.
+  intros K V eqb eqv hash minlf maxlf He Hv Hg cap orc ops Hc PO.
+  apply (double_refines_gen K V eqb eqv hash minlf maxlf He Hv (2 * lf_den maxlf * length ops) (length ops)); auto.
+  - intros n Hn. apply Hg. lia.
+  - destruct Hv as (D1 & D2 & D3 & D4 & D5). assert (0 < lf_num maxlf) by nia. nia.
+Qed.
